@@ -221,8 +221,8 @@ def write_evidence(pid, spec, tier, seed, queries, results, t0, violations=0, no
             'solver_time_s': round(solver_s, 1),
             'peak_rss_kb': peak,
             'exhaustive': False,
-            'explanation': spec.explanation,
-            'outside_bounds': spec.outside,
+            'explanation': spec.explanation or spec.level_text,
+            'outside_bounds': spec.outside or spec.level_note,
             'lowering': {u: r for u, r in (bld.lower_report.items() if bld else []) if r},
             'prechecks': pre or [],
             'known_findings_reported': known or [],
